@@ -22,7 +22,10 @@ ASSUMPTIONS = ["histories up to the first request that ends in an error exit (th
 RULE = ("data.hist.exh: exhaustive request sequences up to length 2 (quick) / 3 (thorough) over a 14-request menu (single / "
         "multiple fields, axes all/no/leadtime/location/time, two inputs, with -obsrange and climatology variants) on "
         "partially missing datasets; data.hist.rand: random sequences up to length 30 with repeats; every earlier answer is "
-        "re-read after every step, every request is repeated on a fresh Data, inputs are compared with their initial copies")
+        "re-read after every step, every request is repeated on a fresh Data, inputs are compared with their initial copies; "
+        "data.hist.consumers: the same with twelve real score classes (deterministic, contingency, field and PIT scores) "
+        "evaluated on the requested slice between the requests — the arrays the cache hands out must be treated as "
+        "read-only by their consumers")
 EXHAUSTIVE = {"quick": True, "thorough": True}
 EXHAUSTIVE_NOTE = "all sequences of length <=2 (quick) / <=3 (thorough) over the 14-request menu per dataset"
 LEVEL_TEXT = ("Lean theorem C18_history_independent: for every request history (any length, any order, any repetition) run "
@@ -68,6 +71,27 @@ def gen_ops(tier, rng):
         pool = dg.all_requests(ds, dims, rng, 12)
         seq = [rng.choice(pool) for _ in range(rng.randint(2, 30))]
         yield "data.hist.rand", dg.enc_op(ds, seq, head="datahist")
+
+
+    # the score classes as consumers of the cached arrays, between the requests
+    for _ in range(120 if tier == "quick" else 3000):
+        ds = dg.gen_dataset(rng, missing=rng.choice([0.0, 0.1, 0.3]))
+        dims = dg.oracle_dims(ds)
+        if dims is None:
+            continue
+        pool = [r for r in dg.all_requests(ds, dims, rng, 12) if r[2] != "all"]
+        if not pool:
+            continue
+        seq = [rng.choice(pool) for _ in range(rng.randint(2, 5))]
+        seq += seq[:2]                   # ask again for what was asked first, after the scores have run
+        yield "data.hist.consumers", dg.enc_op(ds, seq, head="datahistc %d" % rng.randrange(10 ** 6))
+
+
+def lean_op(op):
+    if op.startswith("datahistc "):
+        a = op.split(" ")
+        return " ".join(["datahist"] + a[2:])
+    return op
 
 
 def impl(op):
